@@ -83,7 +83,10 @@ def run(ctx):
         call = we.call_sites('column::Column::write_existing_value_plan')
         rm = we.call_sites('index::IndexTable::write_remove_plan')
         ins = we.call_sites('index::IndexTable::write_insert_plan')
-        ctx.ob('3a anchors', 'anchor', we.path, 'write_plan_existing: one value plan call, one index remove, one index insert', len(call) == 1 and len(rm) == 1 and len(ins) == 1, '%s %s %s' % (call, rm, ins))
+        ctx.ob('3a anchors', 'anchor', we.path, 'write_plan_existing: one value plan call, an index remove, one index insert', len(call) == 1 and len(rm) >= 1 and len(ins) == 1, '%s %s %s' % (call, rm, ins))
+        # a removal that is followed by the insert (the entry of an OLDER index is dropped before the new address goes into the
+        # current one) does not settle the matter by itself: only the insert, or a removal with nothing after it, does
+        rm = [r for r in rm if not any(i in we.reaches(r) for i in ins)]
         none0 = None
         for bi in we.normal_blocks():
             t = we.term(bi)
